@@ -315,3 +315,12 @@ def _(u):
 @unit("mtvrp.rowlocal.reward", file=F, func="MTVRPEnv._get_reward", props=("C04",))
 def _(u):
     _rl(u, "reward")
+
+
+@unit("mtvrp.reward.padding", file=F, func="MTVRPEnv._get_reward", props=("C04", "C03"))
+def _(u):
+    from .envlib import reward_pad_invariant
+
+    N = u.dim("N")
+    reward_pad_invariant(u, F, "MTVRPEnv._get_reward", "MTVRPEnv",
+                         lambda u, B: u.td(B, locs=((B, N + 1, 2), "f"), open_route=((B, 1), "b")), N + 1)
